@@ -75,6 +75,7 @@ type Op struct {
 	Via    string      `json:"via,omitempty"`
 	N      int         `json:"n,omitempty"`
 	Perm   []int       `json:"perm,omitempty"`
+	Map    []int       `json:"map,omitempty"` // C03: index in this lineage of block i of the twin lineage
 	Flags  []string    `json:"flags,omitempty"`
 	Name   string      `json:"name,omitempty"`
 	Tasks  [][]Op      `json:"tasks,omitempty"` // C19: task scripts
